@@ -567,8 +567,14 @@ func e2eInner(t *testing.T) {
 		if n := strings.Count(ipOut("-4", "-o", "addr", "show", "dev", "veth1"), " inet "); n != 1 {
 			bad("c15", "e2e-interface", "%s: %d IPv4 addresses on the interface", when, n)
 		}
-		if rt := ipOut("-4", "route", "show", "default"); !strings.Contains(rt, "via 10.77.0.1 dev veth1") {
-			bad("c15", "e2e-interface", "%s: default route is %q, the ACK announced router 10.77.0.1", when, strings.TrimSpace(rt))
+		router := "10.77.0.1"
+		for _, o := range lastAck.msg.opts {
+			if o.code == 3 && len(o.data) >= 4 {
+				router = net.IP(o.data[:4]).String()
+			}
+		}
+		if rt := strings.TrimSpace(ipOut("-4", "route", "show", "default")); !strings.Contains(rt, "via "+router+" dev veth1") || strings.Count(rt, "default") != 1 {
+			bad("c15", "e2e-interface", "%s: default route is %q, the ACK announced router %s", when, rt, router)
 		}
 	}
 	lifetime := func() int {
@@ -681,6 +687,91 @@ func e2eInner(t *testing.T) {
 	}
 	flap("interface down/up", func() { must("link", "set", "veth1", "down") }, func() { must("link", "set", "veth1", "up") })
 	flap("carrier lost/back", func() { must("link", "set", "veth1b", "down") }, func() { must("link", "set", "veth1b", "up") })
+
+	// ---- another server takes over: while rebinding any server may answer.  psa-dhcpd is stopped and the observer answers the
+	// next two re-validations itself: first with an ACK for the same address that names another router and an infinite
+	// lease (the route has to follow, the address lives for ever), then with a NAK (address and route have to go) ----
+	if alive(cli) && alive(srv) && lastAck != nil {
+		otherMAC, otherIP := net.HardwareAddr{2, 0xee, 0, 0, 0, 0x77}, uint32(0x0a4d0002)
+		syscall.Kill(srv.Process.Pid, syscall.SIGSTOP)
+		answer := func(what string, build func(req wreply) wmsg) bool {
+			time.Sleep(2500 * time.Millisecond) // the client's state loop is rate limited: space the link events
+			mark := len(tap.snapshot())
+			// (the carrier goes and comes back: unlike taking the interface down this leaves the old default route in the kernel,
+			// so that the new configuration has to replace it)
+			must("link", "set", "veth1b", "down")
+			time.Sleep(200 * time.Millisecond)
+			must("link", "set", "veth1b", "up")
+			for end := time.Now().Add(10 * time.Second); time.Now().Before(end); time.Sleep(20 * time.Millisecond) {
+				for _, f := range tap.snapshot()[mark:] {
+					if !f.outgoing && len(f.b) > 14+28 && f.b[12] == 0x08 && f.b[13] == 0 && bytes.Equal(f.b[6:12], cliMAC) {
+						if rq := parseReply(f.b[14:]); rq.ok && rq.typ == 3 && rq.msg.ciaddr != 0 {
+							m := build(rq)
+							dst := rq.msg.ciaddr
+							if m.yiaddr == 0 {
+								dst = 0xffffffff
+							}
+							inject(cliMAC, otherMAC, 0x0800, udpip(otherIP, dst, 67, 68, 17, 64, m.bytes()))
+							return true
+						}
+					}
+				}
+			}
+			bad("c15", "e2e-no-revalidation", "%s: no rebinding REQUEST within 10 s of the link event\n%s", what, tailStr(cliLog.String(), 500))
+			return false
+		}
+		leased := lastAck.msg.yiaddr
+		if answer("ACK of another server", func(rq wreply) wmsg {
+			m := wmsg{op: 2, htype: 1, hlen: 6, xid: rq.msg.xid, yiaddr: rq.msg.ciaddr, siaddr: otherIP, chaddr: rq.msg.chaddr, cookie: 0x63825363}
+			m.opts = []wopt{{53, []byte{5}}, {54, u32b(otherIP)}, {51, u32b(0xffffffff)}, {1, []byte{255, 255, 255, 0}}, {3, u32b(otherIP)}, {6, u32b(0x0a4d0035)}, {15, []byte("e2e.test")}}
+			x := parseReply(udpip(otherIP, rq.msg.ciaddr, 67, 68, 17, 64, m.bytes()))
+			lastAck = &x
+			return m
+		}) {
+			time.Sleep(1500 * time.Millisecond)
+			checkIface("after another server's ACK with a new router and an infinite lease")
+			checkLifetime("after another server's ACK with an infinite lease")
+		}
+		if answer("NAK of that server", func(rq wreply) wmsg {
+			m := wmsg{op: 2, htype: 1, hlen: 6, xid: rq.msg.xid, chaddr: rq.msg.chaddr, cookie: 0x63825363}
+			m.opts = []wopt{{53, []byte{6}}, {54, u32b(otherIP)}}
+			return m
+		}) {
+			seen("c15")
+			gone := false
+			for end := time.Now().Add(4 * time.Second); time.Now().Before(end) && !gone; time.Sleep(50 * time.Millisecond) {
+				gone = configured() == ""
+			}
+			if !gone {
+				bad("c15", "e2e-nak", "a NAK while rebinding: the address %s is still configured 4 s later (lease acknowledged as infinite before)\n%s", ip4(leased), tailStr(cliLog.String(), 500))
+			} else if rt := strings.TrimSpace(ipOut("-4", "route", "show", "default")); rt != "" {
+				bad("c15", "e2e-nak", "a NAK while rebinding: the address is gone but the default route stays: %q", rt)
+			}
+		}
+		// the real server comes back: the client discovers again
+		syscall.Kill(srv.Process.Pid, syscall.SIGCONT)
+		mark := len(tap.snapshot())
+		for end := time.Now().Add(25 * time.Second); configured() == "" && time.Now().Before(end); {
+			time.Sleep(100 * time.Millisecond)
+		}
+		time.Sleep(800 * time.Millisecond)
+		offer, ack = nil, nil
+		for _, f := range tap.snapshot()[mark:] {
+			if f.outgoing && len(f.b) > 14+28 && f.b[12] == 0x08 && f.b[13] == 0 {
+				if rp := parseReply(f.b[14:]); rp.ok && rp.typ == 5 && bytes.Equal(rp.msg.chaddr, cliMAC) {
+					x := rp
+					lastAck = &x
+				}
+			}
+		}
+		if configured() == "" {
+			bad("c15", "e2e-no-lease", "no lease again within 25 s after the NAK\n%s", tailStr(cliLog.String(), 600))
+		} else {
+			checkIface("after the lease acquired again from psa-dhcpd")
+			checkLifetime("after the lease acquired again")
+			cliQuiet = stableSockets(cli.Process.Pid)
+		}
+	}
 
 	// malformed frames for the client's port
 	junk(cliMAC, 68)
